@@ -31,7 +31,8 @@ static MockCheckedExpectedCall *make(Pred pr, bool answer, unsigned calls)
     case P_OUTOFORDER: e->withCallOrder(5); if (answer) e->callWasMade(1); break;            // a call observed at position 1, expected at 5
     case P_FULFILLED: e->callWasMade(0); if (answer) e->callWasMade(0); break;                 // 2 expected: fulfilled after exactly 2 calls
     case P_CANMATCH: e->callWasMade(0); if (!answer) e->callWasMade(0); break;                 // 2 expected: can take more calls while fewer than 2 were made
-    case P_MATCHFINAL: case P_MATCH: if (!answer) e->onObject(&objA); break;                     // not (yet) passed to its object: not matching
+    case P_MATCHFINAL: if (!answer) e->onObject(&objA); break;                                   // not (yet) passed to its object: not matching
+    case P_MATCH: e->ignoreOtherParameters(); if (!answer) e->onObject(&objA); break;             // matching, but (ignoring other parameters) not finalized
     case P_PARAMSMATCH: if (!answer) e->withIntParameter("a", 1); break;                          // parameter a not passed by the actual call
     case P_INNAME: e->withIntParameter(answer ? "a" : "b", 1); break;
     case P_OUTNAME: e->withOutputParameterReturning(answer ? "a" : "b", &outBuf, sizeof outBuf); break;
